@@ -881,6 +881,8 @@ def simp(t):
             return base[1][t[2]]
         if base[0] == 'bin' and base[1].endswith('WithOverflow') and t[2] == 0:
             return simp(('bin', base[1][:-len('WithOverflow')], base[2], base[3]))
+    if k == 'field' and t[1][0] == 'closure' and isinstance(t[2], int) and t[2] < len(t[1][2]):
+        return t[1][2][t[2]]        # the environment of a closure value: its captured values
     if k == 'downcast':
         base = t[1]
         if base[0] == 'variant':
@@ -1176,29 +1178,23 @@ class Walker:
         cb = self.facts.bodies.get(clo[1])
         if cb is None or cb.loops() or cb.arg_count != 1 + len(argterms):
             return None
-        key = ('cloalts', clo[1])
+        key = ('cloalts', clo, tuple(argterms))
         cache = self.facts.__dict__.setdefault('_cloalts', {})
         if key not in cache:
+            # evaluate the closure body in the CALLER's frame: its environment parameter is the closure value itself (so that a captured
+            # closure called inside is a closure value again), its other parameters are the argument terms
             w = Walker(cb, self.facts, max_paths=6)
             w.inline_depth = getattr(self, 'inline_depth', 0) + 1
-            ps = w.run()
+            self_t = ('ref', clo) if cb.lty(1).startswith('&') else clo
+            env = {(1, ()): self_t}
+            for i, a in enumerate(argterms):
+                env[(i + 2, ())] = a
+            ps = w.run(0, env=env)
             ok = not w.overflow and bool(ps) and not getattr(w, 'impure', 0) and all(p.end[0] == 'return' for p in ps) \
                 and not any(e[0] in ('store', 'drop') for p in ps for e in p.events)
-            cache[key] = ps if ok else None
-        ps = cache[key]
-        if ps is None:
-            return None
-        amap = {('param', i + 2): a for i, a in enumerate(argterms)}
-        caps = clo[2]
-        out = []
-        for p in ps:
-            conds = [(subst_term(c, amap, caps), v) for c, v in p.conds]
-            evs = []
-            for e in p.events:
-                if e[0] == 'call':
-                    evs.append(('call', None, e[2], tuple(subst_term(a, amap, caps) for a in e[3]), None, subst_term(e[5], amap, caps), e[6] if len(e) > 6 else None))
-            out.append((conds, evs, subst_term(p.end[1], amap, caps)))
-        return out
+            cache[key] = [([cv for cv in p.conds], [('call', None, e[2], e[3], None, e[5], e[6] if len(e) > 6 else None) for e in p.events if e[0] == 'call'], p.end[1])
+                          for p in ps] if ok else None
+        return cache[key]
 
     def inline_option_call(self, c, ckey, args):
         """Option combinators as the match they stand for: [(discriminant of the receiver, conds, events, result)] or None"""
@@ -1323,6 +1319,58 @@ class Walker:
                         l = op_local(op)
                         if l is not None and self.body.lty(l).startswith('&mut '):
                             has_mut = True
+                if c is not None and t['ret'] is not None and getattr(self, 'inline_closures', True) and self.facts is not None \
+                        and getattr(self, 'inline_depth', 0) <= 2 and args and strip_ref(args[0])[0] == 'closure':
+                    # a direct call of a local closure value (`let helper = |a, b| ..; helper(x, y)`), pure and loop-free: evaluate it in place
+                    ck = c.get('resolved') or c['path']
+                    clo = strip_ref(args[0])
+                    cbody = self.facts.bodies.get(ck)
+                    calts = None
+                    if cbody is not None and cbody.kind == 'closure' and clo[1] == ck:
+                        if c['name'] in ('call', 'call_mut', 'call_once') and len(args) == 2 and args[1][0] == 'tuple':
+                            calts = self.closure_alternatives(clo, list(args[1][1]))     # Fn::call resolved to the closure: (self, (x, y))
+                        else:
+                            calts = self.closure_alternatives(clo, list(args[1:]))
+                    elif c['name'] in ('call', 'call_mut', 'call_once') and (c.get('trait') or '').startswith('core::ops::function::Fn') and len(args) == 2 \
+                            and args[1][0] == 'tuple':
+                        # the same through the Fn* traits (a closure captured by reference and called: `f(x, y)` is Fn::call(&f, (x, y)))
+                        calts = self.closure_alternatives(clo, list(args[1][1]))
+                    if True:
+                        if calts is not None:
+                            for i, (cs, es, r) in enumerate(calts):
+                                last = i == len(calts) - 1
+                                if last:
+                                    p2, e2, k2 = path, env, dict(known)
+                                else:
+                                    p2 = Path()
+                                    p2.blocks = list(path.blocks)
+                                    p2.conds = list(path.conds)
+                                    p2.events = list(path.events)
+                                    e2, k2 = dict(env), dict(known)
+                                feasible = True
+                                for cv in cs:
+                                    if is_const(cv[0]):
+                                        continue
+                                    kn = k2.get(cv[0])
+                                    if kn is not None and ((isinstance(kn, int) and isinstance(cv[1], int) and kn != cv[1]) or (isinstance(kn, frozenset) and cv[1] in kn)):
+                                        feasible = False
+                                        break
+                                    if kn is None or isinstance(kn, frozenset):
+                                        p2.conds = p2.conds + [cv]
+                                        if isinstance(cv[1], int):
+                                            k2[cv[0]] = cv[1]
+                                if not feasible:
+                                    if last:
+                                        return
+                                    continue
+                                p2.events = p2.events + [('call', bb) + e[2:] for e in es]
+                                self.write_key(e2, pkey(t['dest']), r)
+                                if not last:
+                                    self._walk(t['ret'], e2, p2, k2, onpath)
+                                else:
+                                    known = k2
+                            bb = t['ret']
+                            continue
                 if c is not None and t['ret'] is not None and getattr(self, 'inline_closures', True):
                     alts = self.inline_option_call(c, c.get('resolved') or c['path'], args)
                     if alts is not None:
